@@ -301,6 +301,22 @@ def check(ctx):
     for rule, key, ok, where, what, detail in sub.got:
         if rule == 'R6.4-safe-eval' and 'stochastic' in key and 'Lineage' not in key:
             ctx.ob('R5.3-stochastic-rates', '%s/%s' % (rule, key), ok, where, what, detail)
+    # "net stoichiometry": the column a firing adds to the state is the model's own (immediate + delayed) column - the matrix the loop
+    # uses is built from the interface's arrays (C06 R6.1-matrix / store forms) and those shared arrays are never changed in place
+    # (C08 R8.4) - re-emitted here
+    from . import c08
+    prog.mod('types'); prog.mod('types.pxd'); prog.mod('inference')
+    sub = SubCtx(ctx)
+    for key_, wd_ in (('SSASimulator', False), ('DelaySSASimulator', True), ('VolumeSSASimulator', False), ('DelayVolumeSSASimulator', True)):
+        c06.check_sim(sub, key_, wd_)
+    c08.check_copies(sub)
+    seen_ = {}
+    for rule, key, ok, where, what, detail in sub.got:
+        if rule in ('R6.1-matrix', 'R6.1-store-forms') or (rule == 'R8.4-work-on-copies' and key in simloop.SIMULATORS):
+            k_ = '%s/%s' % (rule, key)
+            seen_[k_] = seen_.get(k_, 0) + 1
+            ctx.ob('R5.4-net-stoichiometry', k_ if seen_[k_] == 1 else '%s#%d' % (k_, seen_[k_]), ok, where, what, detail)
+    ctx.floor('R5.4-net-stoichiometry', 10)
     ctx.floor('R5.3-stochastic-rates', 42)
     ctx.floor('R5.1-primitive', 4)
     ctx.floor('R5.2-order', 4)
